@@ -66,6 +66,20 @@ func c12Scenarios(level int) []c12Scenario {
 	ca := J{"$id": "https://example.com/ca", "type": "object", "properties": J{"name": str, "b": J{"$ref": "cb.json"}}, "required": A{"name"}}
 	cb := J{"$id": "https://example.com/cb", "type": "object", "properties": J{"v": in, "back": J{"$ref": "ca.json"}}, "required": A{"v"}}
 	sc = append(sc, c12Scenario{"cycle-to-entry", []genlab.File{{Path: "ca.json", Content: space.Text(ca)}, {Path: "cb.json", Content: space.Text(cb)}}, []string{"ca.json"}, genlab.Cfg{Package: "s", ResolveExt: []string{".json"}}})
+	// output names that are not in their shortest form, with several schema ids going to one file (the lookup of an already
+	// started output and the order in which outputs are rendered meet here)
+	sc = append(sc, c12Scenario{"multi/one-output-unclean-path", multi, []string{"sub/c.json", "a.json"}, genlab.Cfg{Package: "one", Output: "./out//all.go", ResolveExt: []string{".json"}}})
+	sc = append(sc, c12Scenario{"multi/mapped-unclean-path", multi, []string{"a.json", "b.json", "sub/c.json"}, genlab.Cfg{Package: "dflt", ResolveExt: []string{".json"}, Mappings: []genlab.Mapping{
+		{ID: "https://example.com/a", Package: "example.com/m/pa", Output: "./pa/ac.go", Root: "RootA"},
+		{ID: "https://example.com/b", Package: "example.com/m/pa", Output: "./pa/ac.go"},
+		{ID: "https://example.com/c", Package: "example.com/m/pa", Output: "./pa/ac.go"}}}})
+	// several --resolve-extension values that compete for one name: one is a suffix of the other (root type name), and an
+	// extension-less reference for which a file exists under each extension (the listed order decides)
+	ord := J{"$id": "https://example.com/order", "type": "object", "properties": J{"id": str, "addr": J{"$ref": "address"}}, "required": A{"id"}}
+	addrJ := J{"$id": "https://example.com/address-json", "type": "object", "properties": J{"fromJSON": str}}
+	addrY := "$id: https://example.com/address-yaml\ntype: object\nproperties:\n  fromYAML: {type: integer}\n"
+	sc = append(sc, c12Scenario{"resolve-extension/competing", []genlab.File{{Path: "order.schema.json", Content: space.Text(ord)}, {Path: "address.json", Content: space.Text(addrJ)}, {Path: "address.yaml", Content: addrY}, {Path: "address.schema.json", Content: space.Text(addrJ)}},
+		[]string{"order.schema.json"}, genlab.Cfg{Package: "s", ResolveExt: []string{".json", ".schema.json", ".yaml", ".yml"}}})
 	// YAML input with many keys
 	yml := "$id: https://example.com/y\ntype: object\nproperties:\n  one: {type: string}\n  two: {type: integer}\n  three:\n    type: object\n    properties:\n      k1: {type: string}\n      k2: {type: boolean}\n      k3: {type: number}\nrequired: [one, two]\ndefinitions:\n  D1: {type: object, properties: {a: {type: string}}}\n  D2: {type: object, properties: {b: {type: string}}}\n"
 	sc = append(sc, c12Scenario{"yaml", []genlab.File{{Path: "s.yaml", Content: yml}}, []string{"s.yaml"}, genlab.Cfg{Package: "s", ResolveExt: []string{".yaml"}}})
